@@ -24,6 +24,9 @@ CLAIMED = {
  "C09": ("dominance and who-may-call rules on go/cfg; table agreement between the rewrite's emitter and the command parsers",
          "the rewrite protocol: writes during a shrink are captured whenever they reach the live log; the final step is one exclusive critical section ordered flush → copy shrink log → sync → close → rename(new→live) → reopen → seek → size update; the live log is never renamed away or removed; the option words the rewrite emits are parsed by SET / SETHOOK; the batch cursors resume at the element that stopped the batch",
          "value-level round trip of every object and field kind through the emitted SET, and crash instants inside the individual system calls"),
+ "C12": ("table agreement (byte and string case-label sets), dominating-guard extraction on go/cfg, sibling agreement",
+         "the shortcut/range machinery around the filters: the literal-prefix scan of glob.Parse stops at every byte the matcher treats as an operator; an empty prefix leaves the range unbounded; every glob-bounded iteration still matches each candidate; a COUNT answered from a counter uses the counter of the index the fallback iterates and is guarded by the absence of every filter the fallback applies; parser and matcher agree on the WHERE operators",
+         "the glob matching semantics and the value ordering themselves (value-level)"),
 }
 
 NOT_APPLICABLE = {
